@@ -484,6 +484,11 @@ class Engine:
     if self.cur is not None and self.cur.total and (self.prop is None or self.prop in self.cur.total_props):
       self.emit(st, "no-" + exc, f"{self.cur.qual}/no-{exc}@{self.loc(node)}", ok, clause=what, line=line,
                 props=self.cur.total_props)
+    elif (self.cur is not None and getattr(self, "value_pass", False) and
+          exc in getattr(self.cur, "value_total", ())):
+      # value pass of a congruence-mode contract: the listed implicit exceptions are obligations there
+      self.emit(st, "no-" + exc, f"{self.cur.qual}/no-{exc}[value]@{self.loc(node)}", ok, clause=what, line=line,
+                props={"VALUE"})
     if isinstance(ok, bool):
       raise Infeasible()
     st.assume(ok)
@@ -1085,6 +1090,8 @@ class Engine:
     st.spec_depth += 1
     try:
       for cl in c.requires:
+        if cl.props and "VALUE" in cl.props and not getattr(self, "value_pass", False):
+          continue      # field hypotheses of the callee's value pass: only a caller's value pass has to supply them
         g = self.truthy(st, self.ev(cl.node, st))
         self.emit(st, "call-pre", f"{self.cur.qual}/call-pre:{c.qual}@{self.loc(node)}:{cl.text}", g, clause=cl.text,
                   line=line, props=None)
@@ -1154,8 +1161,13 @@ class Engine:
           if body.startswith("["):   # assert [C01] expr
             tag, _, body = body[1:].partition("]")
             props = set(t.strip() for t in tag.split(","))
-            if self.prop is not None and self.prop not in props:
+            if self.prop == "__value_pass__":
+              if "VALUE" not in props:
+                continue
+            elif "VALUE" in props or (self.prop is not None and self.prop not in props):
               continue
+          elif self.prop == "__value_pass__":
+            pass
           g = self.truthy(st, self.ev(ast.parse(body.strip(), mode="eval").body, st))
           n_pc = len(st.pc)
           self.emit(st, "call-site", f"{label}:{body.strip()}", g, clause=body.strip(), line=line, props=props)
@@ -2310,7 +2322,8 @@ class Engine:
     if r["status"] != "ok":
       return r
     n_paths = r["paths"]
-    if getattr(c, "congruence_mod", None) and (c.returns_expr is not None or (c.caller_ensures or [])):
+    if getattr(c, "congruence_mod", None) and (c.returns_expr is not None or (c.caller_ensures or []) or
+                                              getattr(c, "value_pass", False)):
       # congruence-mode contracts: what CALLERS assume (caller_ensures, returns_expr) is about the real integer values,
       # so it is proved in a second pass over the unmodified body (no `%` dropped, no ghost coordinates)
       # only untagged (structural) invariants / hints take part in this pass: clauses tagged with property ids are the
@@ -2406,12 +2419,14 @@ class Engine:
       for g, expr in c.ghost_init.items():
         st.ghost[g] = self.ev(ast.parse(expr, mode="eval").body, st)
       for cl in c.requires + ([] if vp else c.ghost_requires):
+        if cl.props and "VALUE" in cl.props and not vp:
+          continue
         st.assume(self.truthy(st, self.ev(cl.node, st)))
       for cl in ([] if vp else c.hints) + c.defines:
         st.assume(self.truthy(st, self.ev(cl.node, st)))
     finally:
       st.spec_depth -= 1
-    if c.entry_ghost and not vp:
+    if c.entry_ghost:
       self.run_ghost(st, c.entry_ghost, {}, f"{c.qual}/entry", 0)
     if getattr(c, "congruence_mod", None) and not vp:
       st.spec_depth += 1
@@ -2493,7 +2508,7 @@ class Engine:
     covered.add("return")
     vp = getattr(self, "value_pass", False)
     ring = bool(getattr(c, "congruence_mod", None)) and not vp
-    if c.return_hints and not vp:
+    if c.return_hints:      # (the value pass sees the VALUE-tagged and untagged hints only, see Clause.serves)
       ov = {"result": result}
       self.process_hints(st, c.return_hints, ov, f"{c.qual}/return", 0)
     # normal return: exact raise conditions must be false
@@ -2512,7 +2527,7 @@ class Engine:
     st.spec_depth += 1
     st.old = (entry_env, entry_snap)
     try:
-      for cl in ([] if vp else c.ensures + c.ghost_ensures):
+      for cl in ([c0 for c0 in c.ensures if c0.props and "VALUE" in c0.props] if vp else c.ensures + c.ghost_ensures):
         if not cl.serves(self.prop):
           continue
         g = self.truthy(st, self.ev(cl.node, st))
